@@ -208,18 +208,25 @@ def observe(path: str) -> Dict[str, Any]:
                     d = rec["data_file"]
                     fp = d["file_path"].lstrip("/")
                     out["reachable"].add(fp)
-                    files.append((fp, d.get("lower_bounds"), d.get("upper_bounds")))
+                    files.append((fp, d.get("lower_bounds"), d.get("upper_bounds"),
+                                  {"count": d.get("record_count"), "checksum": d.get("checksum"),
+                                   "stat_keys": [k for m in ("column_sizes", "value_counts", "null_value_counts") for k in (d.get(m) or {})]}))
         out["snapshots"].append((snap["snapshot_id"], [f[0] for f in files]))
         if snap["snapshot_id"] == out["current"]:
             cur = []
-            for fp, lo, hi in files:
+            for fp, lo, hi, meta in files:
+                try:
+                    import hashlib
+                    meta["sha256"] = hashlib.sha256(open(os.path.join(path, fp), "rb").read()).hexdigest()
+                except OSError:
+                    meta["sha256"] = None
                 try:
                     t = pq.read_table(os.path.join(path, fp))
                 except Exception as e:               # noqa: BLE001 - e.g. a reachable file that is no parquet file
-                    cur.append({"path": fp, "schema": [], "rows": [{"unreadable": type(e).__name__}], "lo": lo, "hi": hi})
+                    cur.append({"path": fp, "schema": [], "rows": [{"unreadable": type(e).__name__}], "lo": lo, "hi": hi, "meta": meta})
                     continue
                 cur.append({"path": fp, "schema": [(fl.name, str(fl.type), fl.nullable) for fl in t.schema],
-                            "rows": t.to_pylist(), "lo": lo, "hi": hi})
+                            "rows": t.to_pylist(), "lo": lo, "hi": hi, "meta": meta})
             out["files"] = cur
     ddir = os.path.join(path, "data")
     out["store"] = sorted(os.listdir(ddir)) if os.path.isdir(ddir) else []
@@ -1032,7 +1039,7 @@ def oracle_tx(ctx) -> List[Tuple[Dict[str, Any], Dict[str, Any]]]:
     """Explicit transactions that outlive a rejected call: directed multi-file appends whose refused file is at
     every position, then random transaction histories (records and files calls, commit / rollback / abandon /
     failing commit, reused and fresh handles)."""
-    from harness.lib.c11_tx import FILE_KINDS_BAD, STATS, gen_file, gen_tx_case, shrink_tx, tx_case_json
+    from harness.lib.c11_tx import FILE_KINDS_BAD, META, STATS, TRUSTED_STATS, gen_file, gen_tx_case, shrink_tx, tx_case_json
     rng = ctx.rng
     cases: List[Dict[str, Any]] = []
     kinds = FILE_KINDS_BAD
@@ -1046,6 +1053,22 @@ def oracle_tx(ctx) -> List[Tuple[Dict[str, Any], Dict[str, Any]]]:
             cases.append({"kind": "tx", "fields": fields, "seed": rng.getrandbits(30), "txs": [
                 {"handle": "A", "end": "commit", "calls": [{"op": "records", "variant": "omitted", "arg": None, "sid": 1, "build": "fresh", "records": gen_records(rng, fields, 0.0)}]},
                 {"handle": rng.choice(["A", "fresh"]), "end": "commit", "calls": [{"op": "files", "files": files}]}]})
+    # every OTHER caller-controlled field of a pre-built DataFile that a manifest stores (statistics maps and their keys,
+    # checksum, record_count, size, partition values, adding snapshot): each claim on one well-formed file, alone or next
+    # to an honest one -- the call raises and leaves no trace, or every later read (scan, filtered scan, row_count) works
+    # and agrees with the content; and the call-level claim append_files(files, _statistics_computed_here=True) with
+    # bounds that do not describe the file
+    for meta in META:
+        fields = [{"id": 1, "name": "a", "type": rng.choice(["long", "string"]), "required": False}, {"id": 2, "name": "b", "type": rng.choice(["long", "double"]), "required": False}]
+        files = [dict(gen_file(rng, fields, "good", rng.choice(["none", "true"])), meta=meta)] + ([gen_file(rng, fields, "good", "none")] if rng.random() < 0.5 else [])
+        cases.append({"kind": "tx", "fields": fields, "seed": rng.getrandbits(30), "txs": [
+            {"handle": "A", "end": "commit", "calls": [{"op": "records", "variant": "omitted", "arg": None, "sid": 1, "build": "fresh", "records": gen_records(rng, fields, 0.0)}]},
+            {"handle": rng.choice(["A", "fresh"]), "end": "commit", "calls": [{"op": "files", "files": files}]}]})
+    for stats in TRUSTED_STATS:
+        fields = [{"id": 1, "name": "a", "type": rng.choice(["long", "string"]), "required": False}, {"id": 2, "name": "b", "type": rng.choice(["long", "double"]), "required": False}]
+        cases.append({"kind": "tx", "fields": fields, "seed": rng.getrandbits(30), "txs": [
+            {"handle": "A", "end": "commit", "calls": [{"op": "records", "variant": "omitted", "arg": None, "sid": 1, "build": "fresh", "records": gen_records(rng, fields, 0.0)}]},
+            {"handle": rng.choice(["A", "fresh"]), "end": "commit", "calls": [{"op": "files", "trusted": True, "files": [gen_file(rng, fields, "good", stats)]}]}]})
     for kind in kinds:
         for pos in (0, 1, 2):
             for follow in ((False, True) if ctx.tier == "thorough" or pos == 2 else (False,)):
